@@ -24,7 +24,7 @@ fn opts() -> NodeOpts {
     }
 }
 
-pub const EXISTING: [&str; 11] = ["absent", "empty", "behind", "with-tombstones", "midreset-empty", "midreset-one", "midreset-tombstone", "ahead", "removed", "removed-never-heartbeated", "live"];
+pub const EXISTING: [&str; 12] = ["absent", "empty", "behind", "late-tombstone", "with-tombstones", "midreset-empty", "midreset-one", "midreset-tombstone", "ahead", "removed", "removed-never-heartbeated", "live"];
 
 fn kv(k: &str, ver: u64, st: u8) -> Op {
     Op::Kv { key: k.into(), value: if st == 1 { String::new() } else { format!("old-{k}{ver}") }, version: ver, status: st }
@@ -50,6 +50,12 @@ pub fn receiver(existing: &str) -> Node {
         "behind" => {
             n.cc.verif_process_message(hello(1));
             n.cc.verif_process_message(ack(vec![Op::Node { id: x, gc: 0, from: 0 }, kv("a", 1, 0), kv("b", 2, 0)]));
+        }
+        "late-tombstone" => {
+            // the copy's highest version is a tombstone of `a`: a supplied state that keeps it and adds an
+            // older tombstone (stamped later) makes tombstones expire out of version order
+            n.cc.verif_process_message(hello(1));
+            n.cc.verif_process_message(ack(vec![Op::Node { id: x, gc: 0, from: 0 }, kv("a", 3, 1)]));
         }
         "with-tombstones" => {
             // a live key, a tombstone for `c`, and a tombstone for a key no supplied state mentions
@@ -251,6 +257,8 @@ pub fn one_case(existing: &str, s: &Supplied, position: u8, t: &mut Tally) -> Op
         let syn = n.cc.verif_create_syn_message();
         pending_synack = p.as_mut().unwrap().cc.verif_process_message(syn);
     }
+    // tombstones supplied by the call are stamped 4 s later than those the copy already holds
+    crate::clock::advance(Duration::from_secs(4));
     let before = copy_of(&n);
     let live_before = is_live(&n);
     if let Err(pmsg) = call(&mut n, s) {
@@ -312,6 +320,25 @@ pub fn one_case(existing: &str, s: &Supplied, position: u8, t: &mut Tally) -> Op
     }
     if existing.starts_with("removed") && position == 0 && copy_of(&n).is_some() {
         return Some(("garbage collected member present after the call".into(), "gc-member-recreated".into()));
+    }
+    // Key GC passes as the tombstones expire: first those the copy held before the call (grace period
+    // 10 s after the copy was built), then those stamped by the call; frontiers must not go down.
+    for (i, step_ms) in [6_001u64, 4_000, 10_000].into_iter().enumerate() {
+        let fr = frontiers(&n);
+        crate::clock::advance(Duration::from_millis(step_ms));
+        if let Err(pmsg) = guarded(|| n.cc.verif_gc_keys_marked_for_deletion()) {
+            return Some((format!("key GC after the catch-up call panicked: {pmsg}"), format!("panic:{}", short_loc(&pmsg))));
+        }
+        for (id, gc, mv) in fr {
+            if let Some(ns) = n.cc.node_state(&real::to_real_id(&id)) {
+                if (ns.last_gc_version(), ns.max_version()) < (gc, mv) {
+                    return Some((format!("key GC pass {} after the catch-up call lowered the frontier of {} from ({gc},{mv}) to ({},{})", i + 1, id.node_id, ns.last_gc_version(), ns.max_version()), "frontier-lowered".into()));
+                }
+                if ns.last_gc_version() > gc {
+                    t.inc("gc_passes_that_raised_a_watermark");
+                }
+            }
+        }
     }
     None
 }
@@ -494,7 +521,7 @@ pub fn run(tier: Tier, started: Instant) -> Vec<Part> {
 pub fn run_for(property: &'static str, tier: Tier, started: Instant) -> Vec<Part> {
     let vmax = tier.pick(4u64, 5u64);
     let mut part = Part::new(&format!("catchup/calls(versions 0..{vmax})"));
-    part.rule = format!("reset_node_state_if_update called on a real node for every existing copy in {{absent, empty, (0,2) with two keys, mid-reset (3,0), mid-reset (3,1), ahead (0,5), garbage collected (after heartbeats; after a catch-up only, never a heartbeat), live}} x every supplied state (key sets over {{a (present in the copy), c (new)}} with versions 0..{vmax} and every status, max_version 0..={vmax}, last_gc_version 0..={vmax}, consistent or not) x position (alone, before a real handshake with a peer that is ahead, after it, between its SYN and SYN-ACK); oracle: no panic, (watermark, max version) not lowered, the copy is unchanged or its key set is the supplied one with the newer version of shared keys, a garbage collected member stays absent, the member does not become live; when the supplied state is internally consistent (distinct versions >= 1, none above its max version) and does not contradict the copy (shared keys not older, one version = one key) gossip afterwards neither panics nor lowers a frontier; non-trivial = calls that replaced the key set");
+    part.rule = format!("reset_node_state_if_update called on a real node for every existing copy in {{absent, empty, (0,2) with two keys, mid-reset (3,0), mid-reset (3,1), ahead (0,5), garbage collected (after heartbeats; after a catch-up only, never a heartbeat), live, (0,3) whose top version is a tombstone}} x every supplied state (key sets over {{a (present in the copy), c (new)}} with versions 0..{vmax} and every status, max_version 0..={vmax}, last_gc_version 0..={vmax}, consistent or not) x position (alone, before a real handshake with a peer that is ahead, after it, between its SYN and SYN-ACK); oracle: no panic, (watermark, max version) not lowered, the copy is unchanged or its key set is the supplied one with the newer version of shared keys, a garbage collected member stays absent, the member does not become live; when the supplied state is internally consistent (distinct versions >= 1, none above its max version) and does not contradict the copy (shared keys not older, one version = one key) gossip afterwards neither panics nor lowers a frontier, and neither do three key-GC passes timed so that the copy's older tombstones expire before those stamped by the call (4 s later); non-trivial = calls that replaced the key set");
     let supplied = all_supplied(vmax);
     part.bounds = json!({"existing_copies": EXISTING, "supplied_states": supplied.len(), "positions": 4});
     let deadline = started + Duration::from_secs(tier.pick(50, 1500));
@@ -543,6 +570,7 @@ pub fn run_for(property: &'static str, tier: Tier, started: Instant) -> Vec<Part
     part.sample(json!({"existing": "midreset-one", "supplied": {"key_values": [["a", 2, 0], ["c", 3, 1]], "max_version": 4, "last_gc_version": 3}, "position": "between SYN and SYN-ACK"}));
     part.require("calls_that_replaced_the_key_set");
     part.require("calls_that_left_the_copy_unchanged");
+    part.require("gc_passes_that_raised_a_watermark");
     vec![part]
 }
 
